@@ -1,7 +1,7 @@
 (* RunC09: probes of one policy under the four checkers; Policy.from_json on parsed properties. *)
 From Coq Require Import ZArith NArith List Bool String.
 From Vakt Require Import Base.PyMonad Base.PyVal Base.Show Model.Regex Model.Rules Model.Policy Model.Checkers
-     Model.Guard Model.RuleJson Harness.ShowModel Harness.RunGuard.
+     Model.Guard Model.RuleJson Harness.ShowModel Harness.RunGuard Harness.RunC10.
 Import ListNotations.
 Open Scope string_scope.
 
@@ -58,4 +58,13 @@ Definition run_codec (c : ccase) : string :=
                   match rule_of_val (rdepth r) v with Some r' => show_rule_full r' | None => "NONE" end
       end
   | CDec f v => match rule_of_val f v with Some r => show_rule_full r | None => "UNMODELLED" end
+  end.
+
+(* ---- a policy written with to_json (Policy._data) and read with Policy.from_json ---- *)
+Definition run_pjson (c : RunC10.case) : string :=
+  match ctor (cargs c) with
+  | Raise e => show_exn e
+  | Ok s =>
+      let s' := fold_left try_setattr (RunC10.ops c) s in
+      show_pstate (data_of s') ++ " / " ++ show_res show_pstate (from_props (data_of s'))
   end.
